@@ -628,7 +628,10 @@ def run_property(mod, tier, base_seed, only=None, jobs=None):
     if harness_errors:
         for h in harness_errors[:5]:
             sys.stderr.write("HARNESS-ERROR: %s\n" % h)
-        return EXIT_HARNESS
+        # an oracle that could not cope with what a (changed) tree returned in one shard does not
+        # take away a concrete, replayable violation found elsewhere in the same run
+        if not (violations or regress_violations):
+            return EXIT_HARNESS
     if regress_violations:
         for d0, p in regress_violations:
             print("  violation on saved input %s: %s -- %s" % (p, d0["kind"], d0["detail"]))
